@@ -2,6 +2,7 @@
    and for whole operation sequences.  Heap-level lemmas (level chains, push, pop, find) are in
    SList_heap.v. *)
 From CAres.Dsa Require Export SList SList_heap.
+From Coq Require Export Permutation.
 From CAres.Gen Require Import Consts.
 Local Open Scope nat_scope.
 
@@ -847,4 +848,223 @@ Proof.
   exists s0, s'. auto.
 Qed.
 
+
+(* ---- consequences, stated over arbitrary operation sequences ---- *)
+
+(* level-0 traversals = the specification list, sorted, without duplicates, len *)
+Theorem sl_sorted_stable ops :
+  exists s0 rs s, sl_create true true = Some s0 /\ sl_run_model cmp s0 ops = Ok (rs, s) /\
+    let l := sp_l (snd (sl_run_spec cmp sl_spec_create ops)) in
+    sl_walk_fwd s = Ok l /\ sl_walk_bwd s = Ok (rev l) /\ sl_len s = length l /\
+    sl_sorted cmp (map snd l) /\ NoDup (map fst l).
+Proof.
+  destruct (sl_reach ops) as (s0 & s & E0 & E & R).
+  exists s0, (fst (sl_run_spec cmp sl_spec_create ops)), s. split; [exact E0|]. split; [exact E|]. cbv zeta.
+  split; [apply sl_walk_fwd_all; auto|]. split; [apply sl_walk_bwd_all; auto|].
+  destruct R as ((_ & ND & _) & _ & SO & CNT & _). auto.
+Qed.
+
+(* find returns the FIRST element equal to the probe, NULL when there is none *)
+Theorem sl_find_first ops v :
+  exists s0 rs s l, sl_create true true = Some s0 /\ sl_run_model cmp s0 ops = Ok (rs, s) /\
+    sl_walk_fwd s = Ok l /\
+    exists r, sl_node_find cmp s v = Ok r /\
+      match r with
+      | None => forall e, In e l -> cmp v (snd e) <> 0%Z
+      | Some f => exists A d B, l = A ++ (f, d) :: B /\ cmp v d = 0%Z /\
+                                forall e, In e A -> cmp v (snd e) <> 0%Z
+      end.
+Proof.
+  destruct (sl_reach ops) as (s0 & s & E0 & E & R).
+  set (sp := snd (sl_run_spec cmp sl_spec_create ops)) in *.
+  exists s0, (fst (sl_run_spec cmp sl_spec_create ops)), s, (sp_l sp). split; [exact E0|]. split; [exact E|].
+  split; [apply sl_walk_fwd_all; auto|].
+  rewrite (sl_find_ok s sp v R). eexists. split; [reflexivity|].
+  unfold sl_spec_find. destruct (find _ (sp_l sp)) as [[f d]|] eqn:EF; cbn [option_map fst].
+  - pose proof (find_some _ _ EF) as [Hin Hc]. cbn [snd] in Hc. apply Z.eqb_eq in Hc.
+    clear Hin. revert EF. generalize (sp_l sp) as l. intros l.
+    induction l as [|e l IH]; simpl; [discriminate|].
+    destruct (Z.eqb_spec (cmp v (snd e)) 0) as [He|He].
+    + intros [= ->]. exists [], d, l. repeat split; auto; intros e' [].
+    + intros EF. destruct (IH EF) as (A & d' & B & -> & Hd & HA).
+      exists (e :: A), d', B. repeat split; auto. intros e' [<-|He']; auto.
+  - intros e He. pose proof (find_none _ _ EF e He) as Hc. cbn in Hc. apply Z.eqb_neq in Hc. exact Hc.
+Qed.
+
+(* first = minimum *)
+Theorem sl_first_minimum ops :
+  exists s0 rs s l, sl_create true true = Some s0 /\ sl_run_model cmp s0 ops = Ok (rs, s) /\
+    sl_walk_fwd s = Ok l /\
+    sl_first_val s = Ok (option_map snd (hd_error l)) /\
+    forall d, option_map snd (hd_error l) = Some d -> forall e, In e l -> (cmp d (snd e) <= 0)%Z.
+Proof.
+  destruct (sl_reach ops) as (s0 & s & E0 & E & R).
+  set (sp := snd (sl_run_spec cmp sl_spec_create ops)) in *.
+  exists s0, (fst (sl_run_spec cmp sl_spec_create ops)), s, (sp_l sp). split; [exact E0|]. split; [exact E|].
+  split; [apply sl_walk_fwd_all; auto|]. split.
+  - destruct (sl_step_refines s sp SlFirstVal R) as (s' & sp' & r & E1 & E2 & _).
+    cbn [sl_step_model sl_step_spec] in E1, E2. injection E2 as _ <-.
+    destruct (sl_first_val s); cbn [bind] in E1; try discriminate. injection E1 as _ ->. reflexivity.
+  - destruct R as (_ & _ & SO & _). destruct (sp_l sp) as [|[n0 d0] l]; simpl; [discriminate|].
+    intros d [= <-] e [<-|He].
+    + cbn [snd]. rewrite (sl_cmp_refl cmp cmp_anti). lia.
+    + simpl in SO. apply SO. apply in_map. exact He.
+Qed.
+
 End SLR.
+
+(* ------------------------------------------------------------------------------------ *)
+(* statements that do not need the comparator hypotheses *)
+
+(* the specification's insertion adds exactly one element ... *)
+Lemma sl_spec_ins_perm {D} (cmp : D -> D -> Z) x l : Permutation (sl_spec_ins cmp x l) (x :: l).
+Proof.
+  induction l as [|y t IH]; simpl; auto.
+  destruct (cmp (snd x) (snd y) >? 0)%Z; auto.
+  eapply perm_trans; [apply perm_skip, IH|apply perm_swap].
+Qed.
+
+(* ... and removal by node takes out exactly that node *)
+Lemma sl_spec_remove_perm {D} (l : list (nat * D)) n d :
+  NoDup (map fst l) -> In (n, d) l -> Permutation l ((n, d) :: sl_spec_remove n l).
+Proof.
+  intros ND Hin. apply in_split in Hin. destruct Hin as (A & B & ->).
+  rewrite map_app in ND. simpl in ND. apply sl_nodup_split_notin in ND.
+  rewrite sl_remove_hit by tauto. symmetry. apply Permutation_middle.
+Qed.
+
+(* C14: an allocation failure inside ares_slist_insert leaves the list untouched and reports NULL *)
+Lemma sl_insert_alloc_fail_atomic {D} (cmp : D -> D -> Z) heads a_node a_next a_prev a_head (s : slist D) d :
+  a_node = false \/ a_next = false \/ a_prev = false \/
+  (a_head = false /\
+   sl_levels s < sl_calc_level (sl_max_level (sl_cnt s) (sl_levels s)) 1 heads) ->
+  sl_insert cmp heads a_node a_next a_prev a_head s d = Ok (s, None).
+Proof.
+  intros H. unfold sl_insert.
+  destruct a_node; cbn [negb]; auto. destruct a_next; cbn [negb]; auto.
+  destruct a_prev; cbn [negb]; auto.
+  destruct H as [H|[H|[H|[-> H]]]]; try discriminate.
+  apply Nat.ltb_lt in H. rewrite H. reflexivity.
+Qed.
+
+(* ... and it fails only then: with the invariant, insert succeeds whenever the allocator does *)
+Lemma sl_insert_total {D} (cmp : D -> D -> Z)
+  (cmp_anti : forall a b, (cmp a b > 0 <-> cmp b a < 0)%Z)
+  (cmp_trans : forall a b c, (cmp a b <= 0 -> cmp b c <= 0 -> cmp a c <= 0)%Z)
+  heads (s : slist D) sp d :
+  sl_R cmp s sp -> exists s', sl_insert cmp heads true true true true s d = Ok (s', Some (length (sl_heap s))).
+Proof.
+  intros R. destruct (sl_insert_ok cmp cmp_anti cmp_trans s sp d heads true true true true R)
+    as (s' & sp' & r & E1 & E2 & _).
+  cbn [sl_step_spec andb negb orb] in E2. rewrite Bool.orb_true_r in E2. injection E2 as _ <-.
+  destruct R as (_ & _ & _ & _ & _ & <- & _). eauto.
+Qed.
+
+(* use after free is an explicit UB of the model, not a totalised value *)
+Lemma sl_dead_node_is_ub {D} (s : slist D) n :
+  sl_is_live s n = false ->
+  sl_node_claim s n = UB UseAfterFree /\ sl_node_next s n = UB UseAfterFree /\
+  sl_node_prev s n = UB UseAfterFree /\ sl_node_val s n = UB UseAfterFree /\
+  sl_node_pop s n = UB UseAfterFree.
+Proof.
+  unfold sl_is_live, sl_node_claim, sl_node_next, sl_node_prev, sl_node_val, sl_node_pop,
+    sl_get_next, sl_get_prev, sl_node_data, sl_load.
+  destruct (sl_node_at s n); [discriminate|]. intros _. repeat split; reflexivity.
+Qed.
+
+(* ---- results do not depend on the level choices ---- *)
+Definition sl_op_erase {D} (o : sl_op D) : sl_op D :=
+  match o with SlInsert d _ a1 a2 a3 a4 => SlInsert d 0 a1 a2 a3 a4 | _ => o end.
+Definition sl_op_head_ok {D} (o : sl_op D) : Prop :=
+  match o with SlInsert _ _ _ _ _ a4 => a4 = true | _ => True end.
+
+Lemma sl_step_spec_levels_irrelevant {D} (cmp : D -> D -> Z) (sp sp' : sl_spec D) o o' :
+  sp_next sp = sp_next sp' -> sp_l sp = sp_l sp' ->
+  sl_op_erase o = sl_op_erase o' -> sl_op_head_ok o -> sl_op_head_ok o' ->
+  snd (sl_step_spec cmp sp o) = snd (sl_step_spec cmp sp' o') /\
+  sp_next (fst (sl_step_spec cmp sp o)) = sp_next (fst (sl_step_spec cmp sp' o')) /\
+  sp_l (fst (sl_step_spec cmp sp o)) = sp_l (fst (sl_step_spec cmp sp' o')).
+Proof.
+  intros EN EL EO HO HO'.
+  destruct o, o'; cbn [sl_op_erase] in EO; try discriminate; try (injection EO as EO);
+    cbn [sl_op_head_ok] in HO, HO'; subst;
+    cbn [sl_step_spec]; unfold sl_spec_in; rewrite <- ?EL, <- ?EN.
+  - rewrite !Bool.orb_true_r, !Bool.andb_true_r.
+    destruct (a_node0 && a_next0 && a_prev0); cbn [fst snd sp_next sp_l]; rewrite <- ?EN, <- ?EL; auto.
+  - auto.
+  - auto.
+  - auto.
+  - destruct (sl_spec_lookup n0 (sp_l sp)); cbn [fst snd]; auto.
+  - destruct (sl_spec_lookup n0 (sp_l sp)); cbn [fst snd]; auto.
+  - destruct (sl_spec_lookup n0 (sp_l sp)); cbn [fst snd]; auto.
+  - auto.
+  - auto.
+  - auto.
+  - destruct (sl_spec_lookup n0 (sp_l sp)); cbn [fst snd sp_next sp_l]; auto.
+  - destruct (sl_spec_lookup n0 (sp_l sp)); cbn [fst snd sp_next sp_l]; auto.
+  - destruct (sl_spec_lookup n0 (sp_l sp)); cbn [fst snd sp_next sp_l]; auto.
+  - destruct (sp_l sp) eqn:E0; cbn [fst snd sp_next sp_l]; repeat split; congruence.
+  - auto.
+Qed.
+
+Lemma sl_run_spec_levels_irrelevant {D} (cmp : D -> D -> Z) : forall ops ops' (sp sp' : sl_spec D),
+  sp_next sp = sp_next sp' -> sp_l sp = sp_l sp' ->
+  map sl_op_erase ops = map sl_op_erase ops' -> Forall sl_op_head_ok ops -> Forall sl_op_head_ok ops' ->
+  fst (sl_run_spec cmp sp ops) = fst (sl_run_spec cmp sp' ops') /\
+  sp_l (snd (sl_run_spec cmp sp ops)) = sp_l (snd (sl_run_spec cmp sp' ops')).
+Proof.
+  induction ops as [|o ops IH]; intros [|o' ops'] sp sp' EN EL EO HO HO'; try discriminate.
+  - simpl. auto.
+  - cbn [map] in EO. injection EO as EO1 EO2.
+    apply Forall_cons_iff in HO. apply Forall_cons_iff in HO'. destruct HO as [HO1 HO2], HO' as [HO1' HO2'].
+    destruct (sl_step_spec_levels_irrelevant cmp sp sp' o o' EN EL EO1 HO1 HO1') as (E1 & E2 & E3).
+    cbn [sl_run_spec fst snd].
+    destruct (IH ops' _ _ E2 E3 EO2 HO2 HO2') as (E4 & E5).
+    rewrite E1, E4, E5. auto.
+Qed.
+
+Theorem sl_level_choice_irrelevant {D} (cmp : D -> D -> Z)
+  (cmp_anti : forall a b, (cmp a b > 0 <-> cmp b a < 0)%Z)
+  (cmp_trans : forall a b c, (cmp a b <= 0 -> cmp b c <= 0 -> cmp a c <= 0)%Z)
+  (ops ops' : list (sl_op D)) :
+  map sl_op_erase ops = map sl_op_erase ops' -> Forall sl_op_head_ok ops -> Forall sl_op_head_ok ops' ->
+  sl_life_model cmp ops = sl_life_model cmp ops'.
+Proof.
+  intros EO HO HO'. rewrite !(sl_life_refines cmp cmp_anti cmp_trans). unfold sl_life_spec.
+  destruct (sl_run_spec_levels_irrelevant cmp ops ops' sl_spec_create sl_spec_create eq_refl eq_refl EO HO HO')
+    as (E1 & E2).
+  rewrite E1, E2. reflexivity.
+Qed.
+
+(* ---- the hypotheses are satisfiable: the instance the drivers run ---- *)
+Lemma sl_zcmp_anti : forall a b, (sl_zcmp a b > 0 <-> sl_zcmp b a < 0)%Z.
+Proof.
+  intros [a1 a2] [b1 b2]. unfold sl_zcmp. cbn [fst].
+  rewrite (Z.compare_antisym a1 b1). destruct (Z.compare a1 b1); cbn; lia.
+Qed.
+
+Lemma sl_zcmp_trans : forall a b c, (sl_zcmp a b <= 0 -> sl_zcmp b c <= 0 -> sl_zcmp a c <= 0)%Z.
+Proof.
+  intros [a1 a2] [b1 b2] [c1 c2]. unfold sl_zcmp. cbn [fst].
+  destruct (Z.compare_spec a1 b1), (Z.compare_spec b1 c1), (Z.compare_spec a1 c1); lia.
+Qed.
+
+Example sl_life_example :
+  let k (a b : nat) : Z * Z := (Z.of_nat a, Z.of_nat b) in
+  sl_life_model sl_zcmp
+    [SlInsert (k 5 1) 0 true true true true; SlInsert (k 5 2) 7 true true true true;
+     SlInsert (k 3 3) 2 true true true true; SlInsert (k 9 4) 1 true false true true;
+     SlFind (k 5 0); SlReinsert 0 (k 1 1); SlFirst; SlClaim 2; SlNext 2; SlDump]
+  = Ok ([SlRNode (Some 0); SlRNode (Some 1); SlRNode (Some 2); SlRNode None;
+         SlRNode (Some 1); SlRDone; SlRNode (Some 0); SlRVal (Some (k 3 3)); SlRDead;
+         SlRDump [(0, k 1 1); (1, k 5 2)] [(1, k 5 2); (0, k 1 1)] 2],
+        [k 1 1; k 5 2]).
+Proof. vm_compute. reflexivity. Qed.
+
+(* never UB and never out of fuel, for any operation sequence on live nodes *)
+Lemma sl_life_never_ub {D} (cmp : D -> D -> Z)
+  (cmp_anti : forall a b, (cmp a b > 0 <-> cmp b a < 0)%Z)
+  (cmp_trans : forall a b c, (cmp a b <= 0 -> cmp b c <= 0 -> cmp a c <= 0)%Z)
+  (ops : list (sl_op D)) :
+  is_ub (sl_life_model cmp ops) = false /\ sl_life_model cmp ops <> Err OutOfFuel.
+Proof. rewrite (sl_life_refines cmp cmp_anti cmp_trans). split; [reflexivity|discriminate]. Qed.
